@@ -91,8 +91,11 @@ Class(b) == IF b \in KnownCtap2 THEN "ctap2-known"
             ELSE IF b \in 224..239 THEN "ctap2-extension"
             ELSE IF b \in 240..255 THEN "ctap2-vendor"
             ELSE "ctap2-other"
+\* layer A: one value per byte and back to the same byte; the client's mapping.  Which of the library's classes a
+\* byte falls in (a code the library knows by name or not) is layer B: a newly named code is drift, not an alarm.
+StatusDrift(e) == e.kind = "status" /\ e.class # Class(e.byte)
 JudgeStatus(e) ==
-    /\ e.back = e.byte /\ e.class = Class(e.byte)
+    /\ e.back = e.byte
     /\ IF e.byte = 46 THEN e.werr = "CredentialNotFound" ELSE e.werr = "AuthenticatorError" /\ e.wcode = e.byte
 
 Judge(e) == IF e.kind = "status" THEN JudgeStatus(e) ELSE JudgeCase(e)
@@ -102,7 +105,8 @@ VARIABLE done
 Init == done = FALSE
 Next == /\ ~done
         /\ IF "TRACE" \in DOMAIN IOEnv
-           THEN PrintT(<<"RESULT", ToJson([events |-> Len(Rec), viol |-> { i \in 1..Len(Rec) : ~Judge(Rec[i]) }])>>)
+           THEN PrintT(<<"RESULT", ToJson([events |-> Len(Rec), viol |-> { i \in 1..Len(Rec) : ~Judge(Rec[i]) },
+                                            drift |-> { i \in 1..Len(Rec) : StatusDrift(Rec[i]) }])>>)
            ELSE PrintT(<<"CASES", ToJson(Cases)>>)
         /\ done' = TRUE
 Spec == Init /\ [][Next]_done
